@@ -738,7 +738,10 @@ class FloatMethod(DeserializationMethod):
         if isinstance(data, float):
             return data
         elif isinstance(data, int) and not isinstance(data, bool):
-            return float(data)
+            try:
+                return float(data)
+            except OverflowError:  # integer too large to be converted to float
+                raise bad_type(data, float) from None
         else:
             raise bad_type(data, float)
 
